@@ -30,7 +30,7 @@ EVENT_DATA = (
     {"title": "Xfoo", "$category": ["old"], "$tags": ["old"], "É": "É"},
 )
 BOUNDS = {
-    "quick": {"rule_alphabet": "4 categories x 9 regexes x 2 ignore_case x 6 select_keys = 432 rules", "rule_lists": "all ordered lists of <=2 rules (187k) + all ordered lists of 3 rules over 24 rules (13.8k)", "events": "8 event shapes in one list", "urls": "2x3x2x2x2x2 components", "titles": "prefix x marker x fps x app-present product"},
+    "quick": {"rule_alphabet": "4 categories x 9 regexes x 2 ignore_case x 6 select_keys = 432 rules", "rule_lists": "all ordered lists of <=2 rules (187k) + all ordered lists of 3 rules over two 24-rule alphabets (one without, one with differing select_keys; 13.8k each) + all lists of 4 over 9 rules (6.5k); each list is used for categorize, tag (rules rebuilt from the same dicts) and categorize again (same Rule objects)", "events": "8 event shapes in one list", "urls": "2x3x2x2x2x2 components", "titles": "prefix x marker x fps x app-present product"},
     "thorough": {"rule_lists": "additionally all ordered lists of 3 rules over 72 rules (373k)", "rest": "as quick"},
 }
 RULE = (
@@ -68,12 +68,16 @@ def ref_match(rule, data):
     return False
 
 
-def mk_rule(rule):
+def mk_spec(rule):
     cat, regex, ic, sel = rule
     d = {"regex": regex, "ignore_case": ic}
     if sel is not None:
         d["select_keys"] = list(sel)
-    return (list(cat), Rule(d))
+    return d
+
+
+def mk_rule(rule, spec=None):
+    return (list(rule[0]), Rule(mk_spec(rule) if spec is None else spec))
 
 
 def mk_events(emb):
@@ -93,11 +97,21 @@ def frame_ok(ev_in, ev_out, owned):
 
 def check_rules(emb, rules):
     probs = []
-    for fn, key in ((categorize, "$category"), (tag, "$tags")):
+    # ONE set of rule dicts for all calls, as a caller who keeps a rule list around has it (a seeded
+    # Rule.__init__ popped the options out of the caller's dict: the second Rule built from it never matched);
+    # the third call reuses the Rule OBJECTS of the first (a stateful rule would show)
+    specs = [mk_spec(r) for r in rules]
+    kept = {}
+    for fn, key in ((categorize, "$category"), (tag, "$tags"), (categorize, "$category")):
         evs = mk_events(emb)
         orig = deepcopy(evs)
         try:
-            classes = [mk_rule(r) for r in rules]
+            if fn is categorize and "c" in kept:
+                classes = kept["c"]
+            else:
+                classes = [mk_rule(r, sp) for r, sp in zip(rules, specs)]
+            if fn is categorize:
+                kept["c"] = classes
             if fn is tag:
                 classes = [("/".join(c), r) for c, r in classes]
             out = fn(evs, classes)
@@ -149,8 +163,8 @@ def _unit_rules(args):
         for rest in itertools.product(alpha, repeat=max(0, n - 1)):
             rules = (first,) + rest if n else ()
             u.states += 1
-            u.evaluations += 2
-            u.transitions += 2 * len(EVENT_DATA)
+            u.evaluations += 3
+            u.transitions += 3 * len(EVENT_DATA)
             if _nt(rules):
                 u.nontrivial += 1
             for sym, det in check_rules(emb, rules)[:1]:
@@ -284,9 +298,13 @@ def _dispatch(x):
 def _cfg(ctx):
     _G["ctx"] = ctx
     full = tuple((c, r, ic, s) for c in CATS for r in REGEXES for ic in (False, True) for s in SELECTS)
+    # rules that all match the same events but select differently: a list of 3-4 of them interleaves
+    # selections (seeded: rules grouped by select_keys were evaluated group by group, i.e. out of order)
+    sel24 = tuple((c, r, False, s) for c in CATS for r in ("foo", "o") for s in (None, ("title",), ("missing", "title")))
+    tiny9 = tuple((c, "o", False, s) for c in (("A",), ("C",), ("A", "B")) for s in (None, ("title",), ("title", "app")))
     small = tuple((c, r, ic, None) for c in CATS for r in ("foo", "o", "") for ic in (False, True))
     mid = tuple((c, r, ic, s) for c in CATS for r in ("foo", "o", "^x") for ic in (False, True) for s in (None, ("title",), ("missing", "title")))
-    _G["alphas"] = {"full432": full, "small24": small, "mid72": mid}
+    _G["alphas"] = {"full432": full, "small24": small, "mid72": mid, "sel24": sel24, "tiny9": tiny9}
 
 
 def run(ctx):
@@ -298,6 +316,10 @@ def run(ctx):
         units.append(("r", (tuple(ch), "full432", 2)))
     for ch in chunked(_G["alphas"]["small24"], 24):
         units.append(("r", (tuple(ch), "small24", 3)))
+    for ch in chunked(_G["alphas"]["sel24"], 24):
+        units.append(("r", (tuple(ch), "sel24", 3)))
+    for ch in chunked(_G["alphas"]["tiny9"], 9):
+        units.append(("r", (tuple(ch), "tiny9", 4)))
     if ctx.thorough:
         for ch in chunked(_G["alphas"]["mid72"], 72):
             units.append(("r", (tuple(ch), "mid72", 3)))
